@@ -31,16 +31,16 @@ impl Clone for Kij { #[verifier::external_body] fn clone(&self) -> (r: Kij) ensu
 //@keep i: usize
 //@keep j: usize
 //@keep n: usize
-//@track vec: Lst
+//@track @from_segments_binary.0: Lst
 //@event new free
 //@event from_segments_binary free args=0
 //@event clear
-//@on mutcall vec => vec.pushed(i, j);
-//@on stmt let kij = $..r => assert(vec.of_pair(i, j));
+//@on mutcall @from_segments_binary.0 => @from_segments_binary.0.pushed(i, j);
+//@on stmt let $k = Self::Binary::from_segments_binary($..r)?; => assert(@from_segments_binary.0.of_pair(i, j));
 //@loop 2
-    invariant vec.of_pair(i, j)
+    invariant @from_segments_binary.0.of_pair(i, j)
 //@loop 3
-    invariant vec.of_pair(i, j)
+    invariant @from_segments_binary.0.of_pair(i, j)
 //@end
 } // verus!
 fn main() {}
